@@ -16,6 +16,8 @@ import RoModel.Drivers.SubjLin
 import RoModel.Drivers.Rate
 import RoModel.Drivers.Chan
 import RoModel.Drivers.Multi
+import RoModel.Drivers.Create
+import RoModel.Drivers.More
 namespace Ro.Driver
 
 def handlers : List (String × (Case → String)) := [
@@ -35,7 +37,10 @@ def handlers : List (String × (Case → String)) := [
   ("chanv", Drivers.Chan.runV),
   ("multi", Drivers.Multi.run),
   ("multimicro", Drivers.Multi.runMicro),
-  ("multipark", Drivers.Multi.runMicro)
+  ("multipark", Drivers.Multi.runMicro),
+  ("create", Drivers.Create.run),
+  ("tap", Drivers.More.runTap),
+  ("pipe", Drivers.More.runPipe)
 ]
 
 def runCase (c : Case) : String :=
